@@ -12,6 +12,12 @@ ENGINES = [
      'kind_free_text': 'preemption-bounded controlled scheduler over compiler-inserted load/store hooks with conflict (race) monitor'},
 ]
 TEXT = {
+    'C09': {
+        'level': 'Complete enumeration of described numeral lattices on the real converter: all significands up to 4-5 digits x every decimal-point position x every exponent -345..+325 x sign/exponent spellings; all integers within +-2000 of 0, 2^63, 2^64, 10^k; exact decimal expansions of doubles and of midpoints between adjacent doubles (ties) for 16-64 mantissa patterns x all 2047 binary exponents, truncated to 17..400..all digits; the 1.7e308..1e310 band; every string of <=6-7 units over {0 1 9 . e E + -}. Oracle: glibc strtod, consumed length, exact integer arithmetic.',
+        'design_ref': 'DESIGN.md §5 C09',
+        'note': 'Covers the stated lattices, not all numerals; glibc strtod/printf trusted; ties either way (1 ulp); underflow-to-zero may be reported as NaN; exact-size buffers (ASan variant) catch over-reads.',
+        'technique': 'exhaustive enumeration of finite numeral lattices on the implementation, differential against strtod',
+    },
     'C05': {
         'level': 'Bounded-exhaustive exploration of the real parser: every string of <=N code units over a 31-unit JSON alphabet (N=5/6), every string of <=M tokens over 27 JSON tokens plus all code-unit truncations (M=4/5), and nesting families up to depth 4096, each parsed in 4 character widths from an exact-size, unterminated buffer. Any access outside the text is fatal (ASan redzone / PROT_NONE page); hangs are caught by a progress watchdog; the result must be Undefined or free of Undefined nodes; the allocation ledger must balance.',
         'design_ref': 'DESIGN.md §5 C05',
